@@ -528,8 +528,9 @@ def _scale_mad(
     norm_aad = np.sqrt(2 / np.pi)
     loc = np.median(data, axis=axis, keepdims=True)
     mad = np.median(np.abs(data - loc), axis=axis, keepdims=True) / norm
-    # Handle zero MAD case using np.isclose for stability
-    is_zero_mad = np.isclose(mad, 0)
+    # A MAD is zero exactly when at least half of the deviations are; a tolerance
+    # here would make the estimate depend on the units of the data.
+    is_zero_mad = mad == 0
     if np.any(is_zero_mad):
         aad = np.mean(np.abs(data - loc), axis=axis, keepdims=True) / norm_aad
         mad = np.where(is_zero_mad, aad, mad)
@@ -576,12 +577,12 @@ def _scale_doublemad(
 
     # Replace zero MADs with mean absolute deviation
     mad_left = np.where(
-        np.isclose(mad_left, 0),
+        mad_left == 0,
         np.nanmean(data_left, axis=axis, keepdims=True) / norm_aad,
         mad_left,
     )
     mad_right = np.where(
-        np.isclose(mad_right, 0),
+        mad_right == 0,
         np.nanmean(data_right, axis=axis, keepdims=True) / norm_aad,
         mad_right,
     )
